@@ -375,8 +375,12 @@ func (in *Interp) makeLen(v value) int {
 	}
 	C := in.p.C
 	// Go rejects lengths that cannot be allocated; model: anything >= 2^47 panics.
-	tooBig := C.Cmp(smt.OpBvUle, C.BVConst(1<<47, int(x.bits)), x.t)
-	in.panicIf(tooBig, "makeslice: len out of range")
+	if x.bits > 47 {
+		tooBig := C.Cmp(smt.OpBvUle, C.BVConst(1<<47, int(x.bits)), x.t)
+		in.panicIf(tooBig, "makeslice: len out of range")
+	} else if x.signed {
+		in.panicIf(C.Cmp(smt.OpBvSlt, x.t, C.BVConst(0, int(x.bits))), "makeslice: len out of range")
+	}
 	return int(in.concInt(x, "make length", 64))
 }
 
